@@ -10,6 +10,13 @@ Definition level_eqb (a b : slog_level) : bool :=
   | _, _ => false
   end.
 
+(* slog's numeric levels; a slog.Handler with minimum level m is enabled at l iff m <= l.
+   [None]: a handler enabled at no level (slog.DiscardHandler, a minimum above Error) *)
+Definition level_rank (l : slog_level) : Z :=
+  match l with LevelDebug => -4 | LevelInfo => 0 | LevelWarn => 4 | LevelError => 8 end%Z.
+Definition enabled_at (min : option slog_level) (l : slog_level) : bool :=
+  match min with Some m => (level_rank m <=? level_rank l)%Z | None => false end.
+
 (* value of a slog attribute, as projected by the capturing slog.Handler of the
    harness: integers, strings, and durations (value not compared: it is time) *)
 Inductive aval := VInt (z : Z) | VStr (b : bytes) | VDur.
